@@ -45,7 +45,7 @@ func e19SplitOriginD(c *Ctx, base ssa.Value, d int) []*ssa.Call {
 					idx = i
 				}
 			}
-			edges := c.P.Callers(fn)
+			edges := c.P.RealCallers(fn)
 			if idx < 0 || len(edges) == 0 || len(edges) > 8 {
 				return nil
 			}
